@@ -400,9 +400,12 @@ def gen_liq_case(rng, dist, reduce_only_asset=False):
     pred = R.Pred(banks, orcs, na, now)
     ops = []
     feat = rng.choice(["plain", "plain", "plain", "over_liquidation", "too_severe", "liquidator_boundary", "healthy",
-                       "stale_asset_oracle", "extra_positions", "liquidator_small_deposit", "liquidator_swap", "liquidator_swap"])
+                       "stale_asset_oracle", "extra_positions", "liquidator_small_deposit", "liquidator_swap", "liquidator_swap",
+                       "stale_extra_collateral", "stale_extra_collateral"])
     if feat == "liquidator_swap" and not others:
         feat = "liquidator_boundary"
+    if feat == "stale_extra_collateral" and not any(orcs[k] is not None for k in others):
+        feat = "extra_positions"
     dist[feat] = dist.get(feat, 0) + 1
     # lender = liquidator (0) funds the debt bank; thin liquidator (2) has little collateral
     amt = min(native(banks[lb], orcs[lb], Fraction(10 ** rng.choice([6, 8]))), 1 << 60)
@@ -449,9 +452,17 @@ def gen_liq_case(rng, dist, reduce_only_asset=False):
             ops.append([3, 2, ob, q])
             pred.borrow(2, ob, q)
     # liquidatee: collateral in ab (and maybe others), debt in lb near the init limit
-    camt = min(native(banks[ab], orcs[ab], Fraction(rng.choice([10, 100, 1000, 54321]))), 1 << 58)
+    cval = Fraction(rng.choice([10, 100, 1000, 54321]))
+    camt = min(native(banks[ab], orcs[ab], cval), 1 << 58)
     ops.append([1, 1, ab, camt, 0])
     pred.deposit(1, ab, camt)
+    if feat == "stale_extra_collateral":
+        # a SECOND collateral that carries the account: healthy with it, under water without it. Its oracle goes stale
+        # below; a maintenance check that values it at 0 instead of failing makes a healthy account liquidatable
+        k = [j for j in others if orcs[j] is not None][0]
+        x = min(native(banks[k], orcs[k], cval * rng.choice([1, 2, 5])), 1 << 58)
+        ops.append([1, 1, k, x, 0])
+        pred.deposit(1, k, x)
     if feat == "extra_positions" and others:
         for k in others:
             x = native(banks[k], orcs[k], Fraction(rng.choice([1, 10, 100])))
@@ -473,7 +484,7 @@ def gen_liq_case(rng, dist, reduce_only_asset=False):
         pred.banks[ab]["op_state"] = 2
     # price move against the borrower (unless "healthy"): the mildest drop of the collateral price that makes
     # the predicted maintenance health negative (sometimes one step further)
-    if feat != "healthy":
+    if feat not in ("healthy", "stale_extra_collateral"):
         k = ab
         cands = [Fraction(99, 100), Fraction(97, 100), Fraction(95, 100), Fraction(9, 10), Fraction(8, 10), Fraction(7, 10),
                  Fraction(1, 2), Fraction(3, 10), Fraction(1, 10)]
@@ -515,6 +526,11 @@ def gen_liq_case(rng, dist, reduce_only_asset=False):
         pred.now = now + 4000
         ops.append([0, pred.now])
         ops += refresh_ops(pred, pred.now, skip=[ab])
+    if feat == "stale_extra_collateral":
+        k = [j for j in others if pred.orc[j] is not None][0]
+        pred.now = now + 4000
+        ops.append([0, pred.now])
+        ops += refresh_ops(pred, pred.now, skip=[k])
     have = pred.pos[1].get(ab, [0, 0])[0] * pred.banks[ab]["asv"] // (ONE * ONE)
     px = pred.px()
     # seize amounts
